@@ -10,8 +10,6 @@ From TV Require Import Common.Harness C17.Model C17.Law C17.Proofs.
 Import ListNotations.
 Local Open Scope nat_scope.
 
-Definition order_perm (E : env) : Prop := forall p l, Permutation (e_order E p l) l.
-
 (* adapt returns the object itself when its type provides the protocol — through every entry point *)
 Theorem self_when_provides :
   forall E fuel, e_sub E (e_src E) (e_target E) = true ->
